@@ -234,6 +234,7 @@ func runC14(e *Env) error {
 	if e.Replay == "" {
 		c14PG(e)
 		c14PGSchema(e)
+		c14MySQL(e)
 	}
 	e.Res.Rule = "PostgreSQL: the real driver's Snapshot / restore functions over an in-memory stand-in of the server (catalogue queries answered from its state, DDL applied to it): dev database {empty public, no schema, public with a type, public with a table, with a table and a type, two schemas, another schema only} x replays creating {nothing, a type, a type and a table, two tables, two types, a schema with a table and a type, a schema and a type} failing at every position; SQLite: commands {migrate diff (SQL file / HCL / directory of SQL schema files as the desired state), migrate validate, migrate lint, schema apply (SQL/HCL), schema diff, schema inspect} x dev database {missing, empty, table+rows, table+index+trigger, view only, revision table only, two tables, virtual tables only (fts4 with rows / rtree)} x object kinds created by the sources {tables | tables+index+view+trigger | tables with a file that opens its own transaction (BEGIN ... COMMIT)} x failing statement at EVERY position of the replayed directory and of the desired SQL schema (a statement the engine rejects, or one with an unclosed quote: the file holding it cannot be split into statements after the files in front of it have run); dev database opened through the sqlitev:// hook (operation trace); monitors: non-empty dev => command fails, no write operation on dev, file bytes identical; empty dev => dump empty afterwards (success or failure); directory bytes unchanged (migrate diff: only a new file + atlas.sum); outcome == Lean model Atlas.Dev; non-trivial = dev database non-empty or a statement fails; distinct by case"
 	var mu sync.Mutex
